@@ -330,6 +330,25 @@ Section CofactorRel.
     rewrite rel_gmul_add_r, H8, rel_zero_r by (auto; try lia; apply ok_gmul_nn; auto; lia).
     apply eight_inv_eight_fixes_prime_order_rel; assumption.
   Qed.
+  (* the same for a whole dealing: commitments V_c of prime order, each with ANY small-order component T_c added by the dealer
+     (opened consistently), are after the clearing map exactly the V_c: whatever is checked or stored afterwards - the
+     Schnorr statement, the share check, the public shares, the group key - is what it is in the run without the components *)
+  Definition clear_pt (P : gT G) : gT G := gmul e8 (gmul 8 P).
+  Theorem torsion_dealing_cleared : forall Vs Ts,
+    List.length Vs = List.length Ts ->
+    Forall (fun P => ok P /\ gmul L P = O) Vs ->
+    Forall (fun T => ok T /\ gmul 8 T = O) Ts ->
+    map clear_pt (map (fun p => fst p +g snd p) (combine Vs Ts)) = Vs.
+  Proof.
+    induction Vs as [|V Vs IH]; intros Ts Hlen HV HT.
+    - reflexivity.
+    - destruct Ts as [|T Ts]; [discriminate Hlen|].
+      inversion HV as [|? ? [HokV HLV] HVs]; subst.
+      inversion HT as [|? ? [HokT H8T] HTs]; subst.
+      cbn [combine map fst snd]. unfold clear_pt at 1.
+      rewrite eight_inv_eight_clears_rel by assumption.
+      f_equal. apply IH; [injection Hlen; auto|assumption|assumption].
+  Qed.
 End CofactorRel.
 
 (* 3b. The statement for an abstract group in which the abelian laws hold
@@ -953,6 +972,7 @@ Print Assumptions unflatten_odd.
 Print Assumptions unflatten_total.
 Print Assumptions unflatten_rejects_bad.
 Print Assumptions eight_inv_eight_clears_rel.
+Print Assumptions torsion_dealing_cleared.
 Print Assumptions eight_inv_eight_clears.
 Print Assumptions eight_inv_eight_fixes_prime_order.
 Print Assumptions eight_inv_eight_clears_laws.
